@@ -193,7 +193,7 @@ PROPS = {
         "xlate_items": ["session.rs::Status", "device_response.rs::Status"],
         "trusted_base": ["Model/Cbor.lean as model of ciborium's Value codec (validated on every generated encoding)", "Model/Wire.lean typed codecs (hand-written; status tables generated) validated by re-encoding real bytes",
                          "Spec/Time.lean civil-date arithmetic validated against the `time` crate", "ssi-jwk JSON view used by the harness to read JWK fields"],
-        "level_text": "Lean theorems: dec(enc v) = v, byte fixed point and injectivity for EVERY well-formed CBOR value (structural induction, no size bound); typed round trips for SessionData, COSE_Key, Tag24 (bytes preserved), SessionEstablishment, both status tables (regenerated), error codes incl. rejection of RFU codes; generic lift from tree-level to byte-level round trip. All ~30 wire types are tied by differential round-trip runs; types without a typed Lean model are correspondence-only and named in the evidence.",
+        "level_text": "Lean theorems: dec(enc v) = v, byte fixed point and injectivity for EVERY well-formed CBOR value (structural induction, no size bound); typed round trips for SessionData, COSE_Key, Tag24 (bytes preserved), SessionEstablishment, both status tables (regenerated), error codes incl. rejection of RFU codes; generic lift from tree-level to byte-level round trip. Generic schema layer (Model/Schema.lean, WireSchemas.lean): ONE typed decode-and-re-encode function for serde structs (any input field order, unknown entries, explicit nulls), BTreeMaps (re-sorted, last value wins), Tag24 (bytes preserved), tuples, arrays and untagged alternatives, with a theorem by mutual structural induction over schemas that re-encoding is a fixed point for EVERY item of EVERY one of 16 named wire structures (DeviceRequest/Response with documents, items, MSO, validity and key info, COSE keys, session messages, handover; DeviceEngagement is outside the theorem's side condition and covered by correspondence). Every instance is validated against the real library's re-encoding of every generated message and of foreign presentations of it (reversed maps, unknown entries, null options). The remaining types are correspondence-only and named in the evidence.",
         "level_note": "Trusted: Lean kernel; CBOR model = ciborium as used (validated, not proved about ciborium); RFC 3339 formatting/parsing is the time crate's.",
         "technique": "Lean 4 proof (mutual structural induction over the CBOR tree; case analysis over generated tables) + type-directed differential correspondence",
         "assumptions": [],
@@ -218,7 +218,7 @@ PROPS = {
         "trusted_base": ["Spec/Cddl.lean: the validator, transcribed by hand from the ISO 18013-5 CDDL as recalled in DESIGN.md Appendix A (no copy of the standard in the sandbox)",
                          "Generated/Tables.lean: status tables translated from the source on every run", "Model/Wire.lean typed encoders for the modelled subset, tied by the C16 correspondence",
                          "harness decrypts request/response ciphertexts with the session keys read from the stringified state"],
-        "level_text": "Lean theorems: for every value of the modelled message types (SessionData incl. status-only, SessionEstablishment, COSE_Key, both status tables as regenerated from the source) the emitted CBOR satisfies the ISO CDDL validator; the validator itself is executable Lean and is applied to the raw bytes of every message kind the real library emits in the generated sessions and to every issued MSO (this covers the message types whose typed model is not yet proved).",
+        "level_text": "Lean theorems: for every value of the modelled message types (SessionData incl. status-only, SessionEstablishment, COSE_Key, both status tables as regenerated from the source) the emitted CBOR satisfies the ISO CDDL validator; the validator itself is executable Lean and is applied to the raw bytes of every message kind the real library emits in the generated sessions and to every issued MSO (this covers the message types whose typed model is not yet proved). Generic schema layer: for all 17 named wire structures and every item the typed decoder accepts, the re-emitted item satisfies the structure's validator (exact keys in declared order, required fields, sorted maps without repeated keys, decodable embedded items, non-empty arrays) - theorem C18_wire_conforms by mutual structural induction; every real emitted message is also run through that validator.",
         "level_note": "Trusted: Lean kernel; CDDL transcription; for DeviceRequest/DeviceResponse/MSO/DeviceEngagement the 'for all' is the validator run over generated emissions (typed Lean encoders for them are future work, named in evidence), i.e. correspondence, not yet theorem.",
         "technique": "Lean 4 proof (case analysis over generated tables and typed encoders) + independent Lean CDDL validator on real emissions",
         "assumptions": ["CDDL as recalled (DESIGN.md Appendix A)"],
